@@ -46,7 +46,7 @@ def check(rep, tier, seed, specs=None, n_override=None):
                 specs.append({'kind': 'random', 'rule': rule,
                               'exc': 'trypsin_exception' if (rule == 'trypsin' and k % 2) else None,
                               'seed': common.hash64('C10r', seed, rule, k), 'n': 1500})
-        n_pool = n_override or (800 if quick else 20000)
+        n_pool = n_override or (3000 if quick else 20000)
         for k in range(n_pool):
             specs.append({'kind': 'pool', 'seed': common.hash64('C10p', seed if k >= n_pool // 4 else 'fixed', k)})
     results, lost = common.shard_run('c10', specs, timeout_s=1800 if quick else 4 * 3600)
